@@ -82,3 +82,12 @@ chk("C18", "exploration",
     "call of echo per expected row with exactly one argument whose bytes parse to the expected (name, description), sorted, nothing else on stdout/stderr, status 0, no canary.",
     "dash and bash of this image stand for 'a POSIX shell'.",
     "DESIGN.md 5 C18")
+
+chk("C16", "exploration",
+    "bounded exhaustive enumeration of grammar-generated Perl programs, differential execution (perl vs wrapped function under dash and bash) plus static reference decoding",
+    "One program per byte value 1..255 in both quote styles, 135 consecutive script lengths (all residues mod 45 and 3) in two shapes, every sequence of <=2 (thorough 3) statements "
+    "over an 11-statement grammar x 6 leading-comment shapes x argument/stdin settings, 12 argument vectors, sizes to 64 KiB, empty and whitespace-only scripts, each under dash and bash; "
+    "dynamic oracle: same stdout and exit status (die: failure status + message); static oracle: the function body, with the s/b substitution reversed and decoded by a reference "
+    "uudecoder, equals the statement's program text, kept comments and function name.",
+    "'Every Perl program' is not enumerable: the grammar covers the constructs the quantifier names. $0/__FILE__/__DATA__ excluded as the statement says. Known finding: the empty script (see known_findings.json).",
+    "DESIGN.md 5 C16")
